@@ -1,4 +1,5 @@
 pub mod client_codec;
+pub mod framing;
 pub mod server_family;
 
 pub fn run(id: &str, tier: &str) -> i32 {
@@ -7,6 +8,9 @@ pub fn run(id: &str, tier: &str) -> i32 {
         "C02" => server_family::check_c02(tier),
         "C03" => client_codec::check_c03(tier),
         "C04" => client_codec::check_c04(tier),
+        "C05" => framing::check_c05(tier),
+        "C06" => framing::check_c06(tier),
+        "C07" => framing::check_c07(tier),
         "C08" => server_family::check_c08(tier),
         "C17" => server_family::check_c17(tier),
         _ => {
@@ -33,19 +37,24 @@ pub fn replay(path: &str) -> i32 {
         }
     };
     let prop = doc["property"].as_str().unwrap_or("?").to_string();
+    crate::sim::watchdog::start(&prop, "quick", std::time::Duration::from_secs(30), Some(path.to_string()));
     let scn = &doc["scenario"];
-    let problems: Vec<(String, String)> = match scn["kind"].as_str() {
+    let describe = || ("replay".to_string(), "replayed case".to_string(), scn.clone());
+    let problems: Vec<(String, String)> = crate::sim::watchdog::guard(&describe, || match scn["kind"].as_str() {
         Some("server") => {
             let s: server_family::ServerScenario = serde_json::from_value(scn["scenario"].clone()).expect("scenario");
             server_family::replay(&s).into_iter().map(|(a, b, c)| (a, format!("step {c}: {b}"))).collect()
         }
         Some("c03") | Some("c03-ctor") | Some("c03-wm") => client_codec::replay_c03(scn),
         Some("c04") => client_codec::replay_c04(scn),
+        Some("server-stream") => framing::replay_server_stream(scn),
+        Some("c07-server") | Some("c07-client") => framing::replay_c07(scn),
+        Some("client-stream") => framing::replay_client_stream(scn),
         k => {
             eprintln!("unknown replay kind {k:?}");
-            return 2;
+            std::process::exit(2);
         }
-    };
+    });
     if problems.is_empty() {
         println!("replay: property {prop} held on this case");
         0
